@@ -122,8 +122,8 @@ func evalLink(c *an.Ctx, p *an.Prog, l link) {
 	sites := an.CallsTo(l.fn, l.callee)
 	if len(sites) == 0 {
 		// dynamic callee (callback field): match by suffix on any call
-		for _, b := range l.fn.Blocks {
-			for _, in := range b.Instrs {
+		for _, in := range an.DeepInstrs(l.fn) {
+			{
 				if ci, ok := in.(ssa.CallInstruction); ok && strings.HasPrefix(l.callee, "dynamic:") {
 					if ci.Common().StaticCallee() == nil && !ci.Common().IsInvoke() {
 						if _, isB := ci.Common().Value.(*ssa.Builtin); !isB {
@@ -602,8 +602,8 @@ func c042(c *an.Ctx, p *an.Prog) {
 		}
 		var bad []string
 		n := 0
-		for _, b := range r.Fn.Blocks {
-			for _, in := range b.Instrs {
+		for _, in := range an.DeepInstrs(r.Fn) {
+			{
 				ci, ok := in.(ssa.CallInstruction)
 				if !ok {
 					continue
